@@ -54,10 +54,10 @@ Fixpoint split_lf (s : bytes) : list bytes :=
            end
   end.
 Definition strip_last_cr (l : bytes) : bytes :=
-  match rev l with 13 :: r => rev r | _ => l end.
+  match frev l with 13 :: r => frev r | _ => l end.
 Definition str_lines (s : bytes) : list bytes :=
   let segs := split_lf s in
-  let segs' := match rev segs with [] :: r => rev r | _ => segs end in
+  let segs' := match frev segs with [] :: r => frev r | _ => segs end in
   map strip_last_cr segs'.
 
 Definition t_event : bytes := [101; 118; 101; 110; 116; 58; 32].    (* "event: " *)
@@ -284,7 +284,7 @@ Definition pair_beq (a b : bytes * bytes) : bool := beq (fst a) (fst b) && beq (
 (* Known-finding class D9: the stream carries at least one block and no block is followed by the
    blank line that makes an EventSource dispatch it. *)
 Definition ends_with_blank_line (p : bytes) : bool :=
-  match rev p with
+  match frev p with
   | 10 :: 10 :: _ => true
   | 13 :: 13 :: _ => true
   | 10 :: 13 :: 10 :: 13 :: _ => true
